@@ -96,13 +96,26 @@ pub fn hist_text(h: &[Ev]) -> String {
     h.iter().map(|e| e.text()).collect::<Vec<_>>().join(" ")
 }
 
-pub struct WakeFlag(pub AtomicBool);
+/// A global sequence counter: orders wake-ups and peer closes that happen inside one concurrent step.
+pub static SEQ: std::sync::atomic::AtomicU64 = std::sync::atomic::AtomicU64::new(1);
+pub fn next_seq() -> u64 {
+    SEQ.fetch_add(1, Ordering::SeqCst)
+}
+
+/// `.0`: woken since the last poll; `.1`: sequence number of the first wake-up since it was last reset (0 = none).
+pub struct WakeFlag(pub AtomicBool, pub std::sync::atomic::AtomicU64);
+impl WakeFlag {
+    fn note(&self) {
+        self.0.store(true, Ordering::SeqCst);
+        let _ = self.1.compare_exchange(0, next_seq(), Ordering::SeqCst, Ordering::SeqCst);
+    }
+}
 impl Wake for WakeFlag {
     fn wake(self: Arc<Self>) {
-        self.0.store(true, Ordering::SeqCst);
+        self.note();
     }
     fn wake_by_ref(self: &Arc<Self>) {
-        self.0.store(true, Ordering::SeqCst);
+        self.note();
     }
 }
 
@@ -515,7 +528,7 @@ impl Sim {
             self.bgs.push(Bg {
                 site: s.site,
                 task: Some(s.task),
-                flag: Arc::new(WakeFlag(AtomicBool::new(false))),
+                flag: Arc::new(WakeFlag(AtomicBool::new(false), std::sync::atomic::AtomicU64::new(0))),
                 polled: false,
                 spawned_by: by,
                 spawn_step: step,
@@ -569,7 +582,7 @@ impl Sim {
                     origin: o,
                     h2,
                     fut,
-                    flag: Arc::new(WakeFlag(AtomicBool::new(false))),
+                    flag: Arc::new(WakeFlag(AtomicBool::new(false), std::sync::atomic::AtomicU64::new(0))),
                     polled: false,
                     outcome: Outcome::Pending,
                     issue_step: step,
@@ -993,6 +1006,7 @@ pub fn apply_env(e: Ev) {
             let cs = &mut w.conns[c as usize];
             cs.open = false;
             cs.close_step = Some(step);
+            cs.close_seq = Some(next_seq());
             for wk in cs.ready_wakers.drain(..) {
                 wk.wake();
             }
@@ -1003,6 +1017,7 @@ pub fn apply_env(e: Ev) {
             cs.open = false;
             cs.upgraded = true;
             cs.close_step = Some(step);
+            cs.close_seq = Some(next_seq());
             for wk in cs.ready_wakers.drain(..) {
                 wk.wake();
             }
